@@ -160,6 +160,20 @@ def j1(tier, seed, cov):
     if rv.ok or rv.violated != "AnnounceSound":
         raise vlib.Inconclusive("the batch model does not refute AnnounceSound under StoreRule=firstQueued (vacuous model?)")
     configs["MC_gate_batch"]["refutes_first_queued_rule"] = True
+    # histories: re-submission of an accepted manifest after version updates (v1 -> v2 -> v1 included)
+    configs["MC_gate_hist"] = {"ran": False}
+    if tier == "thorough":   # (quick relies on MC_gate_batch, <=2 versions, and on the witness below)
+        t0 = time.time()
+        r = tlc(SPEC, "MCGate", "MC_gate_hist.cfg", timeout=1500)
+        vlib.tlc_require_ok(r, "J1 MC_gate_hist")
+        configs["MC_gate_hist"] = {"distinct_states": r.distinct, "generated": r.generated, "wall_s": round(time.time() - t0, 1), "ok": True}
+        states += r.distinct
+        transitions += r.generated
+    # non-vacuity: a "retry fast path" that skips the version check must be refuted (ReplySound) by TLC
+    rv = tlc(SPEC, "MCGate", "MC_gate_retry_seeded.cfg", timeout=900)
+    if rv.ok or rv.violated != "ReplySound":
+        raise vlib.Inconclusive("the gate model does not refute ReplySound under StoreRule=retryFastPath (vacuous model?)")
+    configs["MC_gate_hist"]["refutes_retry_fast_path"] = True
     if tier == "thorough":   # non-vacuity: "the gate never accepts" must be refuted by TLC
         for vac in ("MC_gate_vac1.cfg", "MC_gate_vac2.cfg"):
             rv = tlc(SPEC, "MCGate", vac, timeout=900)
@@ -302,7 +316,7 @@ def violations_from(bad, lines, pairs_file):
         x = lines[l - 1]
         pair = json.dumps({"d": x["d"], "m": x["m"]}, sort_keys=True, separators=(",", ":"))
         sig = "%s:%s" % (inv, pair)
-        if x["kind"] in ("gate", "batch"):
+        if x["kind"] in ("gate", "batch", "history"):
             sig = "%s:%s:%s" % (inv, x["scenario"], pair)
         out.append(vlib.Violation("C10", sig, "observation %d judged by TLC invariant %s:\n%s" % (l, inv, json.dumps(x)),
                                   {"pairs.ndjson": json.dumps({"d": x["d"], "m": x["m"]}) + "\n", "observation.json": json.dumps(x, indent=1)}))
@@ -325,7 +339,7 @@ def selftest(lines, work):
     p = next((x for x in lines if x["kind"] == "pair" and all(r["accepted"] for r in x["res"])), None)
     if p:
         p = cp(p)
-        p["res"][0]["resrej"] = True
+        p["res"][0]["crossok"] = False
         pick.append(p)
         want.append(("ImplComplete", len(pick)))
     g = next((x for x in lines if x["kind"] == "gate" and not x["accepted"] and x["sub"] != (x["updates"][-1] if x["updates"] else x["chain"])), None)
@@ -341,6 +355,14 @@ def selftest(lines, work):
         b["announced"] = [next(s["hid"] for s in b["subs"] if not s["accepted"] and s["hid"] not in b["announced"])]
         pick.append(b)   # the provider announces the manifest it refused
         want.append(("AnnounceSound", len(pick)))
+    hl = next((x for x in lines if x["kind"] == "history"
+               and any(st["op"] == "sub" and not st["accepted"] and st["err"].startswith("manifest version") for st in x["steps"])), None)
+    if hl:
+        hl = cp(hl)
+        st = next(st for st in hl["steps"] if st["op"] == "sub" and not st["accepted"] and st["err"].startswith("manifest version"))
+        st["accepted"] = True        # a stale re-submission claimed accepted
+        pick.append(hl)
+        want.append(("HistorySound", len(pick)))
     hs = [x for x in lines if x["kind"] == "hash"]
     if hs:
         mid = hs[0]["mid"]
@@ -409,7 +431,7 @@ def run(pid, tier, seed, replay):
         "pairs_replayed": summ["pairs"], "pair_evaluations": summ["pair_evals"], "schemes": 6,
         "accepted_pairs": summ["accepted_pairs"], "resrej_pairs": summ["resrej_pairs"],
         "gate_pairs": summ["gate_pairs"], "gate_submits": summ["gate_submits"], "gate_accepted": summ["gate_accepted"],
-        "gate_batches": summ.get("gate_batches", 0), "announcements_observed": summ.get("announcements", 0),
+        "gate_batches": summ.get("gate_batches", 0), "gate_histories": summ.get("gate_histories", 0), "announcements_observed": summ.get("announcements", 0),
         "sdl_files": summ.get("sdl_files", 0), "sdl_real_pairs": summ.get("sdl_pairs", 0), "sdl_real_pairs_accepted": summ.get("sdl_accepted", 0),
         "hash_bases": summ["hash_bases"], "hash_lines": summ["hash_lines"], "hash_mutants": summ["hash_mutants"],
         "hash_field_sites": summ.get("sites"), "hash_opaque_fields": summ.get("opaque") or [],
